@@ -76,7 +76,7 @@ func (b *spinBarrier) wait() {
 			start = time.Now()
 		}
 		runtime.Gosched()
-		if spins%256 == 0 && time.Since(start) > 400*time.Millisecond {
+		if spins%256 == 0 && time.Since(start) > 50*time.Millisecond {
 			b.open()
 			return
 		}
